@@ -690,8 +690,8 @@ def _history_child(calls, files, tmpdir):
 
     for phase in ("first", "repeat"):
         if phase == "repeat":
-            if not any([_scribble(h[0]) for h in held]):
-                break
+            if viol or not any([_scribble(h[0]) for h in held]):
+                break               # a history that already failed is not repeated
             held = []
         for j in range(len(calls)):
             got, good = read(j, phase)
@@ -727,52 +727,57 @@ def _history_child(calls, files, tmpdir):
     return dict(viol=viol, obs=obs)
 
 
-def _history_case(calls, seed, tmpdir):
-    """one history in a forked child -> (violations, obs)"""
-    from pydrobert.speech import _sphere, config, util  # noqa: F401  (imported, never called, by the parent)
+def _hist_seqs(alphabet, depth, first):
+    """every sequence of 1..depth calls over the alphabet that starts with call number `first`"""
+    import itertools
 
-    from .. import crash
+    calls = [list(c) for c in _hist_calls(alphabet)]
+    return [[calls[first]] + [calls[k] for k in rest]
+            for n in range(depth) for rest in itertools.product(range(len(calls)), repeat=n)]
 
-    calls = [tuple(c) for c in calls]
-    files = {f: _hist_file(f, seed) for f, _, _ in calls}
-    for f, dt, _ in calls:
-        if dt not in files[f]["want"]:
-            raise core.HarnessError("call outside the property: %r" % ((f, dt),))
+
+def _hist_setup(seed, tmpdir):
+    """files of the alphabet on disk; -> child(seq) for mc.crash.explore_histories.  The parent imports
+    the library and never calls it."""
+    from pydrobert.speech import _sphere, config, util  # noqa: F401
+
+    files = {f: _hist_file(f, seed) for f in HIST_FILES}
     for f in files:
-        p = os.path.join(tmpdir, f + ".sph")
-        if not os.path.exists(p):
-            with open(p, "wb") as g:
-                g.write(files[f]["data"])
-    case = dict(kind="history", calls=[list(c) for c in calls])
-    r = crash.in_fork(lambda: _history_child(calls, files, tmpdir))
-    if r[0] == "raised":
-        raise core.HarnessError("history child: %s" % r[1])
-    if r[0] != "ok":
-        return [core.violation(dict(sub="histories", what="interpreter_" + r[0]),
-                               "history %r: the interpreter %s (%s)" % (case["calls"], r[0], r[1]), case)], r[0]
-    return [core.violation(t, d, case) for t, d in r[1]["viol"]], ",".join(r[1]["obs"])
+        with open(os.path.join(tmpdir, f + ".sph"), "wb") as g:
+            g.write(files[f]["data"])
+
+    def child(seq):
+        calls = [tuple(c) for c in seq]
+        for f, dt, _ in calls:
+            if dt not in files[f]["want"]:
+                raise core.HarnessError("call outside the property: %r" % ((f, dt),))
+        return _history_child(calls, files, tmpdir)
+
+    return child
 
 
 def _histories(pt, seed):
     """pt = (alphabet, depth, index of the first call): every history of 1..depth calls that starts
-    with that call, each in its own forked child"""
-    import itertools
+    with that call; one forked child per point (see mc.crash.explore_histories)"""
+    from .. import crash
 
     alphabet, depth, first = pt
-    calls = _hist_calls(alphabet)
-    viol, obs, evals, nontriv = [], set(), 0, 0
+    seqs = _hist_seqs(alphabet, depth, first)
     with _Tmp() as tmp:
-        for n in range(0, depth):
-            for rest in itertools.product(range(len(calls)), repeat=n):
-                seq = [calls[first]] + [calls[k] for k in rest]
-                v, o = _history_case(seq, seed, tmp)
-                viol += v
-                evals += 1
-                nontriv += int(len(seq) > 1)
-                obs.add(o)
-    return core.result(viol, evals=evals, nontrivial_count=nontriv, obs=sorted(obs),
-                       sample=dict(alphabet=alphabet, depth=depth, first_call=list(calls[first]),
+        viol, results, forks = crash.explore_histories(
+            seqs, _hist_setup(seed, tmp), dict(alphabet=alphabet, depth=depth, first=first))
+    obs = sorted(set(",".join(r["obs"]) for r in results))
+    return core.result(viol, evals=len(seqs), nontrivial_count=sum(len(s) > 1 for s in seqs),
+                       obs=[seqs[0][0][0]] + obs, impl_calls=forks,
+                       sample=dict(alphabet=alphabet, depth=depth, first_call=seqs[0][0],
                                    inner="every continuation of 0..%d further calls" % (depth - 1)))
+
+
+def _replay_history(case, seed, tmp):
+    from .. import crash
+
+    return crash.replay_history(case, lambda c: _hist_seqs(c["alphabet"], c["depth"], c["first"]),
+                                _hist_setup(seed, tmp))
 
 
 # ------------------------------------------------------------------ replay / registration
@@ -794,8 +799,8 @@ def _replay(case, seed):
             return core.result(_trunc_case(c, seed, tmp)[0])
         if k == "fault":
             return core.result(_fault_case(c, seed, tmp)[0])
-        if k == "history":
-            return core.result(_history_case(c["calls"], seed, tmp)[0])
+        if k in ("history", "history_run"):
+            return core.result(_replay_history(case, seed, tmp))
     raise core.HarnessError("cannot replay %r" % (case,))
 
 
@@ -844,7 +849,7 @@ def subchecks(tier, seed):
             "histories", hist, lambda p: _histories(p, seed),
             "call histories in ONE interpreter, every result HELD by the caller: alphabet of calls = file "
             "{%s} x requested dtype {None,float32,uint8} x {stream,path} (16-bit PCM with a 1-byte dtype is "
-            "outside the property); %s; each history runs in its own forked child (state 'just imported'); "
+            "outside the property); %s; the histories of a point run one after the other in one forked child (state at its start: 'just imported'), the first violation of every signature is confirmed by running its history alone in a fresh child; "
             "after every call: the result equals the stored samples (truncated file: the whole samples "
             "present + a warning), every array returned earlier still equals what it was when returned, "
             "the module-level data of config / _sphere (numbers, sets, G.711 tables) is unchanged; after "
